@@ -13,7 +13,13 @@ def make_obj(cls, attrs):
     if c is None:
         # deterministic rendering: `str(obj)` reaches `data` through String / custom scalars, and a memory
         # address there would differ from run to run (a false alarm for every response-equality check)
-        c = type(cls, (), {"__repr__": lambda self, _n=cls: f"<{_n} object>"})
+        ns = {"__repr__": lambda self, _n=cls: f"<{_n} object>"}
+        if cls.startswith("Falsy"):
+            # a result object that is FALSY yet carries its attributes (an empty page / collection wrapper): `if not parent`
+            # shortcuts must not treat it as "no parent"
+            ns["__bool__"] = lambda self: False
+            ns["__len__"] = lambda self: 0
+        c = type(cls, (), ns)
         _classes[cls] = c
     o = c()
     for k, v in attrs:
